@@ -49,8 +49,8 @@ func (r *Merlin) Name() string {
 }
 
 func (r *Merlin) Visit(f func(name string, macs []string)) {
-	r.mu.RLock()
-	defer r.mu.RUnlock()
+	r.mu.Lock()
+	defer r.mu.Unlock()
 	r.refreshLocked()
 	m := map[string][]string{}
 	for mac, names := range r.macs {
@@ -64,8 +64,8 @@ func (r *Merlin) Visit(f func(name string, macs []string)) {
 }
 
 func (r *Merlin) LookupMAC(mac string) []string {
-	r.mu.RLock()
-	defer r.mu.RUnlock()
+	r.mu.Lock()
+	defer r.mu.Unlock()
 	r.refreshLocked()
 	return r.macs[mac]
 }
